@@ -19,6 +19,8 @@ mod engine;
 mod tests;
 
 pub use engine::{JobKind, PPGEvaluator};
+#[cfg(tyberiusprime_pypipegraph2_verif)]
+pub mod verif;
 
 static LOGGER_INIT: Once = Once::new();
 
